@@ -621,6 +621,85 @@ def flow_end_to_end(run, mods, shapes):
 
 
 # ---------------------------------------------------------------------------------------------
+# correspondence for the consumers: which statements fixes.delete_unreachable_code yields
+
+
+BLOCK_POOL = LEAVES + [
+    ("assert", "TFalse"), ("assert", "TUnknown"),
+    ("if", "TUnknown", [("return",)], [("raise",)]), ("if", "TUnknown", [("return",)], []),
+    ("if", "TTrue", [("return",)], [("call",)]), ("if", "TFalse", [("return",)], [("call",)]),
+    ("while", "TTrue", [("call",)], []), ("while", "TUnknown", [("return",)], []),
+    ("while", "TTrue", [("if", "TUnknown", [("break",)], [])], []),
+    ("for", "INonEmpty", [("return",)], []), ("for", "IEmpty", [("return",)], []),
+    ("with", [("raise",)]), ("try", [("return",)], [], [], [("pass",)]),
+]
+
+
+def unreachable_cases(run):
+    bodies = [list(b) for b in itertools.product(BLOCK_POOL, repeat=2)]
+    triples = [list(b) for b in itertools.product(BLOCK_POOL, repeat=3)]
+    bodies += triples if run.tier == "thorough" else triples[::11]
+    return bodies
+
+
+def check_consumers(run, mods, wd):
+    """fixes.delete_unreachable_code (its generator) vs FlowModel.unreachable_from / dead_const"""
+    fixes, core = mods["fixes"], mods["core"]
+    gen = fixes.delete_unreachable_code._fix_func
+    bodies = unreachable_cases(run)
+    consts = [s for s in depth1() if s[0] in ("if", "while")]
+    impl_a, impl_b = [], []
+    for body in bodies:
+        src = "def f():\n" + "".join(s_text(s, 1) for s in body)
+        core.parse.cache_clear()
+        with common.quiet():
+            yielded = {id(n) for n, *_ in gen(src)}
+        fbody = core.parse(src).body[0].body
+        impl_a.append((src, [i for i, n in enumerate(fbody) if id(n) in yielded]))
+    for s in consts:
+        src = s_text(s)
+        core.parse.cache_clear()
+        with common.quiet():
+            yielded = {id(n) for n, *_ in gen(src)}
+        node = core.parse(src).body[0]
+        b = [id(n) in yielded for n in node.body]
+        o = [id(n) in yielded for n in node.orelse]
+        if id(node) in yielded and not any(b) and not any(o):
+            code = 1
+        elif all(b) and not any(o) and id(node) not in yielded:
+            code = 2
+        elif o and all(o) and not any(b) and id(node) not in yielded:
+            code = 3
+        elif not any(b) and not any(o) and id(node) not in yielded:
+            code = 0
+        else:
+            code = 9
+        impl_b.append((src, code))
+    p = wd / "consumers.v"
+    p.write_text("From Coq Require Import List Bool.\nImport ListNotations.\n"
+                 "Require Import Pyrefact.Base Pyrefact.FlowModel.\n"
+                 "Definition bodies : list (list stmt) := [\n " + ";\n ".join(glist(b, s_coq) for b in bodies) + "\n].\n"
+                 "Definition consts : list stmt := [\n " + ";\n ".join(s_coq(s) for s in consts) + "\n].\n"
+                 "Eval vm_compute in (map (fun b => length (unreachable_from b)) bodies ++ "
+                 "map (fun s => dead_code (dead_const s)) consts).\n")
+    rc, txt = common.run_case_files([p])[p]
+    nums = common.parse_nat_list(txt) if rc == 0 else None
+    if nums is None or len(nums) != len(bodies) + len(consts):
+        raise RuntimeError(f"model evaluation failed for {p.name}: {txt[-1500:]}")
+    bad = []
+    for (src, idx), body, k in zip(impl_a, bodies, nums):
+        want = list(range(len(body) - k, len(body)))
+        if idx != want:
+            bad.append({"stmt": src, "fn": "delete_unreachable_code / _iter_unreachable_nodes",
+                        "impl": idx, "model": want})
+    for (src, code), k in zip(impl_b, nums[len(bodies):]):
+        # `if True:` with an empty else: the model says "children of the else branch" and there are none
+        if code != k and not (k == 3 and code == 0 and "else:" not in src):
+            bad.append({"stmt": src, "fn": "delete_unreachable_code (literal test)", "impl": code, "model": k})
+    return bad, len(bodies), len(consts)
+
+
+# ---------------------------------------------------------------------------------------------
 
 
 def model_eval(wd, stmts, tag):
@@ -718,6 +797,9 @@ def check(run: common.Run):
     e2e_fail, e2e_known, n_e2e, n_e2e_rw = flow_end_to_end(run, mods, FIXED_FLOW_WITNESSES + xcand + cand[::step])
     known_hits += [{"stmt": k["stmt"], "observed": k["only_after"]} for k in e2e_known]
 
+    cons_bad, n_cons_a, n_cons_b = check_consumers(run, mods, wd)
+    disagreements += cons_bad
+
     # ---- known findings
     kf = common.load_findings(PID)
     for f in kf:
@@ -773,6 +855,7 @@ def check(run: common.Run):
         exhaustive=False, exhaustive_part=n_exh, random_part=len(stmts) - n_exh, histogram=dict(hist),
         correspondence_disagreements=len(disagreements), semantics_violations=len(sem_bad),
         property_oracle_failures=len(prop_fail), model_imprecision_N=imprecise,
+        unreachable_bodies=n_cons_a, literal_test_statements=n_cons_b, consumer_disagreements=len(cons_bad),
         iterable_expressions=len(xs), iterable_loop_shapes=len(xshapes), elements_mismatches=len(elements_bad),
         e2e_unreachable_cases=n_e2e, e2e_unreachable_rewritten=n_e2e_rw, e2e_unreachable_failures=len(e2e_fail),
         trusted_base=common.TRUSTED_BASE_COMMON + [
